@@ -214,9 +214,9 @@ def plan(tier, seed):
     specs = [{"kind": "exhaustive", "lengths": [1, 2, 3, 4, 5, 6, 7, 8, 9, 10, 11, 12]}, {"kind": "exhaustive", "lengths": [13, 14]},
              {"kind": "exhaustive", "lengths": [15]}, {"kind": "exhaustive", "lengths": [16]}]
     for i in range(4 if q else 8):
-        specs.append({"kind": "long", "sub": i, "random": 150 if q else 2000, "cubes": 12 if q else 100})
+        specs.append({"kind": "long", "sub": i, "random": 150 if q else 8000, "cubes": 12 if q else 300})
     for i in range(6 if q else 12):
-        specs.append({"kind": "croo", "sub": i, "random": 12 if q else 120, "perms": 6 if q else 50, "cubes": 5 if q else 40,
+        specs.append({"kind": "croo", "sub": i, "random": 12 if q else 400, "perms": 6 if q else 50, "cubes": 5 if q else 120,
                       "exhaustive_upto": (4 if q else 6) if i == 0 else 0, "max_perms": 720})
     return specs
 
